@@ -231,7 +231,7 @@ package yqlib
 //@   requires n != nil
 //@   ensures @fresh-copy result != nil && fresh(result) && sameScalarAttrs(result, n) && result.IsMapKey == n.IsMapKey && result.Parent == n.Parent
 //@   ensures @key-copied implies(n.Key == nil, result.Key == nil) && implies(n.Key != nil, result.Key != nil && fresh(result.Key) && result.Key.Value == n.Key.Value && result.Key.Tag == n.Key.Tag && result.Key.Kind == n.Key.Kind)
-//@   ensures @content-length len(result.Content) == ite(cloneContent, len(n.Content), 0)
+//@   ensures @content-length len(result.Content) == ite(cloneContent, len(n.Content), 0) && freshSlice(result.Content)
 //@   ensures @children-fresh forall(i, 0, len(result.Content), result.Content[i] != nil && fresh(result.Content[i]) && result.Content[i].Parent == result)
 
 //@ func (*CandidateNode).Copy
@@ -239,7 +239,7 @@ package yqlib
 //@   requires n != nil
 //@   ensures @fresh-copy result != nil && fresh(result) && sameScalarAttrs(result, n) && result.IsMapKey == n.IsMapKey && result.Parent == n.Parent
 //@   ensures @key-copied implies(n.Key == nil, result.Key == nil) && implies(n.Key != nil, result.Key != nil && fresh(result.Key) && result.Key.Value == n.Key.Value && result.Key.Tag == n.Key.Tag && result.Key.Kind == n.Key.Kind)
-//@   ensures @content-length len(result.Content) == len(n.Content)
+//@   ensures @content-length len(result.Content) == len(n.Content) && freshSlice(result.Content)
 //@   ensures @children-fresh forall(i, 0, len(result.Content), result.Content[i] != nil && fresh(result.Content[i]) && result.Content[i].Parent == result)
 
 //@ func (*CandidateNode).CopyWithoutContent
@@ -247,7 +247,7 @@ package yqlib
 //@   requires n != nil
 //@   ensures @fresh-copy result != nil && fresh(result) && sameScalarAttrs(result, n) && result.IsMapKey == n.IsMapKey && result.Parent == n.Parent
 //@   ensures @key-copied implies(n.Key == nil, result.Key == nil) && implies(n.Key != nil, result.Key != nil && fresh(result.Key) && result.Key.Value == n.Key.Value)
-//@   ensures @no-content len(result.Content) == 0
+//@   ensures @no-content len(result.Content) == 0 && freshSlice(result.Content)
 
 //@ func (*CandidateNode).AddChild
 //@   props C02 C03 C07 C16 C11
@@ -255,7 +255,7 @@ package yqlib
 //@   let v = n.Content[len(n.Content)-1]
 //@   requires n != nil && rawChild != nil
 //@   modifies n.Content
-//@   ensures @appended len(n.Content) == n0 + 1 && forall(i, 0, n0, n.Content[i] == old(n.Content[i]))
+//@   ensures @appended len(n.Content) == n0 + 1 && forall(i, 0, n0, n.Content[i] == old(n.Content[i])) && freshSlice(n.Content)
 //@   ensures @child-fresh v != nil && fresh(v) && v.Parent == n && sameScalarAttrs(v, rawChild) && len(v.Content) == len(old(rawChild.Content))
 //@   ensures @key-fresh v.Key != nil && fresh(v.Key) && v.Key.Parent == n
 //@   ensures @key-index {C03,C16} implies(old(rawChild.Key) == nil, v.Key.Value == itoa(n0))
@@ -266,7 +266,7 @@ package yqlib
 //@   let n0 = len(old(n.Content))
 //@   requires n != nil && rawKey != nil && rawValue != nil
 //@   modifies n.Content
-//@   ensures @appended len(n.Content) == n0 + 2 && forall(i, 0, n0, n.Content[i] == old(n.Content[i])) && n.Content[n0] == result0 && n.Content[n0+1] == result1
+//@   ensures @appended len(n.Content) == n0 + 2 && forall(i, 0, n0, n.Content[i] == old(n.Content[i])) && n.Content[n0] == result0 && n.Content[n0+1] == result1 && freshSlice(n.Content)
 //@   ensures @key result0 != nil && fresh(result0) && result0.IsMapKey && result0.Parent == n && result0.Value == old(rawKey.Value) && result0.Tag == old(rawKey.Tag)
 //@   ensures @value result1 != nil && fresh(result1) && !result1.IsMapKey && result1.Parent == n && result1.Key == result0 && sameScalarAttrs(result1, rawValue)
 
@@ -276,13 +276,15 @@ package yqlib
 //@   requires n != nil
 //@   assume forall(i, 0, len(children), children[i] != nil) && implies(n.Kind == MappingNode, len(children) % 2 == 0)
 //@   modifies n.Content
-//@   ensures @appended len(n.Content) == n0 + len(children) && forall(i, 0, n0, n.Content[i] == old(n.Content[i]))
+//@   ensures @appended len(n.Content) == n0 + len(children) && forall(i, 0, n0, n.Content[i] == old(n.Content[i])) && implies(freshSlice(old(n.Content)), freshSlice(n.Content))
 //@   ensures @children-fresh forall(i, n0, len(n.Content), n.Content[i] != nil && fresh(n.Content[i]) && n.Content[i].Parent == n)
 //@   loop 1:
 //@     invariant 0 <= i && i <= len(children) && i % 2 == 0
+//@     invariant implies(freshSlice(old(n.Content)), freshSlice(n.Content))
 //@     invariant len(n.Content) == n0 + i && forall(j, 0, n0, n.Content[j] == old(n.Content[j]))
 //@     invariant forall(j, n0, len(n.Content), n.Content[j] != nil && fresh(n.Content[j]) && n.Content[j].Parent == n)
 //@   loop 2:
+//@     invariant implies(freshSlice(old(n.Content)), freshSlice(n.Content))
 //@     invariant len(n.Content) == n0 + rangeidx() && forall(j, 0, n0, n.Content[j] == old(n.Content[j]))
 //@     invariant forall(j, n0, len(n.Content), n.Content[j] != nil && fresh(n.Content[j]) && n.Content[j].Parent == n)
 
@@ -419,6 +421,15 @@ package yqlib
 //@   requires validCtx(context)
 //@   readonly-if context.DontAutoCreate
 //@   ensures implies(result1 == nil, validCtx(result0))
+//@   ensures @stays-read-only implies(result1 == nil && context.DontAutoCreate, result0.DontAutoCreate)
+
+// ---------------------------------------------------------------------------------------------
+// operator_traverse_path.go
+
+//@ func traverseMap
+//@   props C08 C02 C07
+//@   flags docframe-only
+//@   readonly-if context.DontAutoCreate || prefs.DontAutoCreate || splat
 
 // ---------------------------------------------------------------------------------------------
 // operator_select.go
@@ -431,3 +442,43 @@ package yqlib
 //@     invariant nodeList(results) && fresh(results) && nodeList(context.MatchingNodes)
 //@   loop 2:
 //@     invariant nodeList(results) && fresh(results) && nodeList(context.MatchingNodes) && nodeList(rhs.MatchingNodes)
+
+// ---------------------------------------------------------------------------------------------
+// function-typed values called dynamically: contracts assumed for every value of the type, and checked
+// wherever a concrete function is converted to the type (obligation kind closure-contract)
+
+//@ functype ValueVisitor
+
+//@ functype crossFunctionCalculation
+//@   readonly-if context.DontAutoCreate
+
+//@ functype crossFunctionPreferences.LhsResultValue
+
+// Encoder methods reached through the interface: assumed (trusted) not to write document nodes
+//@ func invoke Encoder.PrintLeadingContent
+//@   trusted
+
+//@ func invoke Encoder.PrintDocumentSeparator
+//@   trusted
+
+// ---------------------------------------------------------------------------------------------
+// context.go (variables) and candidate_node.go (visitors)
+
+//@ func (*Context).GetVariable
+//@   props C08 C11
+//@   requires n != nil
+
+//@ func (*Context).SetVariable
+//@   props C08 C11
+//@   requires n != nil
+//@   modifies n.Variables
+
+//@ func (*CandidateNode).VisitValues
+//@   props C08 C15 C11
+//@   requires n != nil
+//@   assume kidsOK(n)
+
+//@ func (*CandidateNode).CanVisitValues
+//@   props C11
+//@   requires n != nil
+//@   ensures result == (n.Kind == MappingNode || n.Kind == SequenceNode)
